@@ -21,6 +21,7 @@ import (
 	pb "github.com/theparanoids/crypki/proto"
 	"github.com/theparanoids/ysshra/config"
 	"github.com/theparanoids/ysshra/crypki"
+	"github.com/theparanoids/ysshra/tlsutils"
 	"golang.org/x/crypto/ssh"
 	"google.golang.org/grpc"
 	"google.golang.org/grpc/codes"
@@ -61,12 +62,14 @@ type LReply struct {
 // LEndpoint is one simulated CA endpoint.
 type LEndpoint struct {
 	Name       string   `json:"name"`        // as configured: IP literal or passthrough:///host
-	Identity   string   `json:"identity"`    // genuine | other_ca | self_signed | expired | not_yet | wrong_name
+	Identity   string   `json:"identity"`    // genuine | other_ca | sibling_ca | self_signed | expired | not_yet | wrong_name
 	CA         int      `json:"ca"`          // index of the issuing configured CA (genuine and time/name impostors)
 	TLS        string   `json:"tls"`         // 1.1 | 1.2 | 1.3 : highest version the server offers (1.1 = only old versions)
 	ClientAuth string   `json:"client_auth"` // require | request | none
 	Dial       string   `json:"dial"`        // ok | refuse | stall | cut | slow
 	CutAfter   int      `json:"cut_after,omitempty"`
+	// Heal: the dial fault lasts only for the Sign calls before this one (0: for the whole run)
+	Heal int `json:"heal,omitempty"`
 	Script     []LReply `json:"script"`
 }
 
@@ -78,6 +81,12 @@ type LCfg struct {
 	PerTryMs  int     `json:"per_try_ms"`
 	NilList   bool    `json:"nil_list,omitempty"` // "crypki_endpoints" absent instead of an empty list
 	ParentSec int     `json:"parent_sec"`
+	// ClientChain: the client certificate file holds leaf + intermediate; servers trust the root only
+	ClientChain bool `json:"client_chain,omitempty"`
+	// Sibling: CA indices (all >= NCAs) of the bundle of another TLS client configuration built in the same
+	// process (as gensign does for its telemetry exporter); SiblingFirst: built before the signer
+	Sibling      []int `json:"sibling,omitempty"`
+	SiblingFirst bool  `json:"sibling_first,omitempty"`
 }
 
 // LBackoff is one direct evaluation of the retry back-off.
@@ -108,7 +117,7 @@ func hostOf(name string) string { return strings.TrimPrefix(name, "passthrough:/
 type signerEnt struct {
 	signer    *crypki.Signer
 	err       error
-	clientDER []byte
+	clientDER [][]byte // the configured client certificate chain, leaf first
 }
 
 var (
@@ -147,10 +156,35 @@ func getSigner(p *LPlan) *signerEnt {
 		return ent
 	}
 	clientCA := newCA("client-ca")
-	cl := issue(clientCA, "ra-client", []string{"ra.sim"}, longBefore, longAfter, true)
-	ent.clientDER = cl.Certificate[0]
+	var cl tls.Certificate
+	if p.Cfg.ClientChain {
+		inter := newIntermediate(clientCA, "client-intermediate")
+		cl = issue(inter, "ra-client-chained", []string{"ra.sim"}, longBefore, longAfter, true)
+		cl.Certificate = append(cl.Certificate, inter.der)
+	} else {
+		cl = issue(clientCA, "ra-client", []string{"ra.sim"}, longBefore, longAfter, true)
+	}
+	ent.clientDER = cl.Certificate
 	os.WriteFile(filepath.Join(dir, "client.crt"), certPEM(cl), 0o600)
 	os.WriteFile(filepath.Join(dir, "client.key"), keyPEM(cl), 0o600)
+	sibling := func() {
+		if len(p.Cfg.Sibling) == 0 {
+			return
+		}
+		var b []byte
+		for _, ci := range p.Cfg.Sibling {
+			b = append(b, newCA(fmt.Sprintf("server-ca-%d", ci)).pem()...)
+		}
+		fn := filepath.Join(dir, "sibling-ca.pem")
+		os.WriteFile(fn, b, 0o600)
+		// another TLS client of the same process with its own CA bundle; it is never used for signing
+		if _, err := tlsutils.TLSClientConfiguration(filepath.Join(dir, "client.crt"), filepath.Join(dir, "client.key"), []string{fn}); err != nil && ent.err == nil {
+			ent.err = fmt.Errorf("sibling TLS client configuration: %v", err)
+		}
+	}
+	if p.Cfg.SiblingFirst {
+		sibling()
+	}
 	var files []string
 	for i, f := range p.Cfg.Bundle {
 		var b []byte
@@ -180,7 +214,13 @@ func getSigner(p *LPlan) *signerEnt {
 		ent.err = err
 		return ent
 	}
-	ent.signer, ent.err = crypki.NewSignerWithGensignConf(gc)
+	sg, err := crypki.NewSignerWithGensignConf(gc)
+	if !p.Cfg.SiblingFirst {
+		sibling()
+	}
+	if ent.err == nil {
+		ent.signer, ent.err = sg, err
+	}
 	return ent
 }
 
@@ -212,8 +252,17 @@ type network struct {
 	events []event
 	o      *sim.Outcome
 	req    *pb.SSHCertificateSigningRequest
-	client []byte
+	client [][]byte
 	viol   []string
+	call   int // index of the Sign call in progress
+}
+
+// dialMode is the endpoint's dial behaviour during the given Sign call.
+func (e *LEndpoint) dialMode(call int) string {
+	if e.Heal > 0 && call >= e.Heal {
+		return "ok"
+	}
+	return e.Dial
 }
 
 func (n *network) fault(k string) {
@@ -267,9 +316,10 @@ func (n *network) dial(ctx context.Context, addr string) (net.Conn, error) {
 	}
 	ep.dials++
 	first := ep.dials == 1
-	n.log(event{kind: "dial", ep: ep.idx, detail: ep.spec.Dial})
+	mode := ep.spec.dialMode(n.call)
+	n.log(event{kind: "dial", ep: ep.idx, detail: mode})
 	n.mu.Unlock()
-	switch ep.spec.Dial {
+	switch mode {
 	case "refuse":
 		n.fault("dial_refused")
 		return nil, errors.New("simnet: connection refused")
@@ -289,7 +339,7 @@ func (n *network) dial(ctx context.Context, addr string) (net.Conn, error) {
 	if err != nil {
 		return nil, err
 	}
-	if ep.spec.Dial == "cut" && first {
+	if mode == "cut" && first {
 		n.fault("connection_cut")
 		return &cutConn{Conn: c, left: ep.spec.CutAfter, n: n}, nil
 	}
@@ -325,12 +375,12 @@ func (s *signingServer) PostUserSSHCertificate(ctx context.Context, req *pb.SSHC
 	} else {
 		rep = LReply{Kind: "ok", NCerts: 1}
 	}
-	ver, peerDER := uint16(0), []byte(nil)
+	ver, peerDER := uint16(0), [][]byte(nil)
 	if p, ok := peer.FromContext(ctx); ok {
 		if ti, ok := p.AuthInfo.(credentials.TLSInfo); ok {
 			ver = ti.State.Version
-			if len(ti.State.PeerCertificates) > 0 {
-				peerDER = ti.State.PeerCertificates[0].Raw
+			for _, pc := range ti.State.PeerCertificates {
+				peerDER = append(peerDER, pc.Raw)
 			}
 		}
 	}
@@ -352,10 +402,17 @@ func (s *signingServer) PostUserSSHCertificate(ctx context.Context, req *pb.SSHC
 		n.viol = append(n.viol, fmt.Sprintf("C18.version|old_tls|endpoint %d was contacted over TLS version %#x", ep.idx, ver))
 	}
 	if ep.spec.ClientAuth != "none" {
-		if peerDER == nil || string(peerDER) != string(n.client) {
-			n.viol = append(n.viol, fmt.Sprintf("C18.client_cert|client_cert|endpoint %d asked for a client certificate and did not observe the configured one (got %d bytes)", ep.idx, len(peerDER)))
+		same := len(peerDER) == len(n.client)
+		for i := 0; same && i < len(peerDER); i++ {
+			same = string(peerDER[i]) == string(n.client[i])
+		}
+		if !same {
+			n.viol = append(n.viol, fmt.Sprintf("C18.client_cert|client_cert|endpoint %d asked for a client certificate and did not observe the configured one (got %d certificates, configured %d)", ep.idx, len(peerDER), len(n.client)))
 		} else {
 			n.probe("client_cert_presented")
+			if len(peerDER) > 1 {
+				n.probe("client_chain_presented")
+			}
 		}
 	}
 	n.mu.Unlock()
@@ -426,6 +483,9 @@ func (n *network) startEndpoint(i int, e *LEndpoint, clientCA *ca) *epState {
 		cert = issue(issuer, label, []string{host}, now.Add(-24*time.Hour), now.Add(365*24*time.Hour), false)
 	case "other_ca":
 		cert = issue(newCA("foreign-ca"), label, []string{host}, now.Add(-24*time.Hour), now.Add(365*24*time.Hour), false)
+	case "sibling_ca":
+		// issued by a CA that another TLS client of this process is configured with, not the signer
+		cert = issue(issuer, label, []string{host}, now.Add(-24*time.Hour), now.Add(365*24*time.Hour), false)
 	case "self_signed":
 		cert = issue(nil, label, []string{host}, now.Add(-24*time.Hour), now.Add(365*24*time.Hour), false)
 	case "expired":
@@ -509,6 +569,7 @@ func execL(t *testing.T, raw json.RawMessage) *sim.Outcome {
 		dialsStart []int
 	}
 	var calls []callRec
+	allReturned := false
 	ncalls := max(1, p.Calls)
 	fail := sim.InBubble(t, func() {
 		clientCA := newCA("client-ca")
@@ -523,6 +584,7 @@ func execL(t *testing.T, raw json.RawMessage) *sim.Outcome {
 			}
 			var c callRec
 			n.mu.Lock()
+			n.call = ci
 			c.evFrom = len(n.events)
 			for _, ep := range eps {
 				c.base = append(c.base, ep.attempts)
@@ -548,11 +610,24 @@ func execL(t *testing.T, raw json.RawMessage) *sim.Outcome {
 			calls = append(calls, c)
 		}
 		o.SimTimeS += sim.SimNow()
+		allReturned = true
+		// a signer that keeps resources between calls says so with a Close method
+		switch c := any(signer).(type) {
+		case interface{ Close() error }:
+			c.Close()
+		case interface{ Close() }:
+			c.Close()
+		}
 		for _, ep := range eps {
 			ep.srv.Stop()
 			ep.ln.Close()
 		}
 	})
+	if fail != "" && allReturned && strings.Contains(fail, "main bubble goroutine has exited") {
+		// every Sign call returned; goroutines the signer left behind (kept connections) are no stall
+		o.Probe("goroutines_left_after_last_sign")
+		fail = ""
+	}
 	if fail != "" {
 		failBubble(o, fail)
 		return o
@@ -615,6 +690,12 @@ func execL(t *testing.T, raw json.RawMessage) *sim.Outcome {
 		class := make([]string, len(p.Endpoints)) // good | maybe | bad
 		for i, e := range p.Endpoints {
 			authentic := e.Identity == "genuine" && e.TLS != "1.1"
+			if e.Heal > 0 && ci >= e.Heal && e.Dial != "ok" {
+				o.Probe("endpoint_reachable_again_in_later_call")
+			}
+			if e.Identity == "sibling_ca" && ci == 0 {
+				o.Probe("impostor_from_ca_of_another_tls_client")
+			}
 			first := LReply{Kind: "ok", NCerts: 1}
 			laterOK := false
 			if len(e.Script) > 0 {
@@ -627,9 +708,9 @@ func execL(t *testing.T, raw json.RawMessage) *sim.Outcome {
 				}
 			}
 			switch {
-			case !authentic || e.Dial == "refuse" || e.Dial == "stall":
+			case !authentic || e.dialMode(ci) == "refuse" || e.dialMode(ci) == "stall":
 				class[i] = "bad"
-			case (e.Dial == "cut" && c.dialsStart[i] == 0) || e.Dial == "slow":
+			case (e.dialMode(ci) == "cut" && c.dialsStart[i] == 0) || e.dialMode(ci) == "slow":
 				// a cut connection may or may not be retried in time; latency may exceed the per-try timeout
 				class[i] = "maybe"
 			case first.Kind == "ok" && first.NCerts > 0:
@@ -648,7 +729,7 @@ func execL(t *testing.T, raw json.RawMessage) *sim.Outcome {
 			if len(e.Script) > 0 {
 				k = e.Script[0].Kind
 			}
-			sig = append(sig, fmt.Sprintf("%s/%s/%s/%s/%s/%s", class[i], e.Identity, e.TLS, e.ClientAuth, e.Dial, k))
+			sig = append(sig, fmt.Sprintf("%s/%s/%s/%s/%s/%s", class[i], e.Identity, e.TLS, e.ClientAuth, e.dialMode(ci), k))
 		}
 		if okReply {
 			if len(certs) == 0 {
